@@ -169,3 +169,50 @@ fn c13_end_to_end_3() {
     kani::cover!(ended && ne == 1, "ended");
     core::mem::forget(f);
 }
+
+/// "Make sure we've got room": the reserve arithmetic before every transport read, with the REAL marks (LW = 1 KiB,
+/// HW = 8 KiB). `lenonly` configuration of the model buffer: lengths and capacities are exact and symbolic, contents are
+/// not maintained, so the codec here never finds a frame (a long undecoded frame is exactly the interesting case).
+#[cfg(feature = "lenonly")]
+mod room {
+    use super::*;
+    struct Never;
+    impl Decoder for Never { type Item = (); type Error = io::Error; fn decode(&mut self, _: &mut BytesMut) -> Result<Option<()>, io::Error> { Ok(None) } }
+    struct Rd2 { room_seen: usize, reads: u8, give: usize }
+    impl AsyncRead for Rd2 {
+        fn poll_read(mut self: Pin<&mut Self>, _: &mut Context<'_>, buf: &mut ReadBuf<'_>) -> Poll<io::Result<()>> {
+            self.reads += 1;
+            if self.reads > 1 { return Poll::Pending; }
+            self.room_seen = buf.remaining();
+            let z = [0u8; 8]; let g = self.give; buf.put_slice(&z[..g]);
+            Poll::Ready(Ok(()))
+        }
+    }
+    impl AsyncWrite for Rd2 {
+        fn poll_write(self: Pin<&mut Self>, _: &mut Context<'_>, _: &[u8]) -> Poll<io::Result<usize>> { Poll::Pending }
+        fn poll_flush(self: Pin<&mut Self>, _: &mut Context<'_>) -> Poll<io::Result<()>> { Poll::Pending }
+        fn poll_shutdown(self: Pin<&mut Self>, _: &mut Context<'_>) -> Poll<io::Result<()>> { Poll::Pending }
+    }
+    /// any buffered length up to 8936 undecoded bytes (beyond the 8 KiB mark), any capacity >= length, READABLE either way:
+    /// the poll does not panic, offers at least LW bytes of room to the read, and keeps every byte
+    #[kani::proof] #[kani::unwind(10)]
+    fn c13_room_before_every_read() {
+        let len: usize = kani::any(); kani::assume(len <= 8936);
+        let cap: usize = kani::any(); kani::assume(cap >= len && cap <= 20000);
+        let give: usize = kani::any(); kani::assume(give >= 1 && give <= 8);
+        let readable: bool = kani::any();
+        let mut flags = Flags::empty(); if readable { flags.insert(Flags::READABLE); }
+        let mut f = Box::pin(Framed { io: Rd2 { room_seen: 0, reads: 0, give }, codec: Never, flags, read_buf: BytesMut::model_with_len(len, cap), write_buf: BytesMut::with_capacity(HW) });
+        let w = noop(); let mut cx = Context::from_waker(&w);
+        let r = f.as_mut().poll_next(&mut cx);
+        assert!(matches!(r, Poll::Pending), "an incomplete frame: Pending once the transport has nothing more");
+        assert!(f.io.reads == 2, "the transport is read until it is Pending");
+        assert!(f.io.room_seen >= 1024, "at least LW bytes of room are offered to every read (a full buffer would read 0 bytes = a false end of stream)");
+        assert!(f.read_buf.len() == len + give, "every byte received is kept while the frame is incomplete");
+        assert!(!f.flags.contains(Flags::EOF), "no end of stream was reported");
+        kani::cover!(len > 8192 && cap - len < 1024, "beyond the high-water mark with little room");
+        kani::cover!(len < 1024 && cap - len < 1024, "small buffer with little room");
+        kani::cover!(cap - len >= 1024, "enough room already");
+        core::mem::forget(f);
+    }
+}
